@@ -106,7 +106,7 @@ func runOnce(job *Job, ch vs.Chooser, trace bool) (*vs.Result, *Outcome) {
 		out, res = runC10(job.C10, cc, trace)
 	case "C05mon":
 		out, res = runC05(job.C05, cc, trace)
-	case "C18atom", "C13conc", "C04conc", "C02conc", "C10prom":
+	case "C18atom", "C13conc", "C04conc", "C02conc", "C10prom", "C05conc":
 		out, res = runC18(job.C18, cc, trace)
 	case "C03conc":
 		out, res = c03Run(job.C03, cc, trace)
